@@ -94,6 +94,31 @@ def rand_record(rng, p_attr=None, p_fg=0.5, p_bg=0.35, p_link=0.15, allow_false=
     return rec
 
 
+def near_twin(rec, rng):
+    """A record that differs from rec in exactly one place: one attribute flipped (on <-> off), added or removed, or
+    the link / one colour dropped.  Two such styles in one flush are what a cache keyed by a lossy style key, an
+    equality by hash or a sloppy bit-field confuses."""
+    twin = {"attrs": dict(rec["attrs"]), "fg": rec["fg"], "bg": rec["bg"], "link": rec["link"]}
+    r = rng.random()
+    if r < 0.45 and twin["attrs"]:
+        a = rng.choice(sorted(twin["attrs"]))
+        twin["attrs"][a] = not twin["attrs"][a]
+    elif r < 0.75:
+        a = rng.choice(ATTRS)
+        if a in twin["attrs"]:
+            del twin["attrs"][a]
+        else:
+            twin["attrs"][a] = rng.random() < 0.5
+    elif r < 0.85 and twin["link"]:
+        twin["link"] = None
+    elif r < 0.93 and twin["fg"]:
+        twin["fg"] = None
+    else:
+        a = rng.choice(ATTRS)
+        twin["attrs"][a] = not twin["attrs"].get(a, False)
+    return twin
+
+
 def is_null(rec):
     return not rec["attrs"] and rec["fg"] is None and rec["bg"] is None and rec["link"] is None
 
